@@ -368,6 +368,15 @@ def gen_setexpr(rng: random.Random, depth: int, set_names: list[str], counter: l
     for _ in range(nwrap):
         kind = rng.choice(["let", "let", "let", "with"])
         if kind == "let":
+            earlier = [fr for fr in wrappers if fr.kind == "let"
+                       and all(isinstance(v, (int, Ref)) for v in fr.bindings.values())]
+            if len(earlier) >= 1 and len(wrappers) >= 2 and rng.random() < 0.25:
+                # a layer that is textually identical to an earlier one (the same literals):
+                # value equality of layers must not be mistaken for identity
+                src = rng.choice(earlier)
+                wrappers.append(Frame("let", {k: (Ref(v.name) if isinstance(v, Ref) else v)
+                                              for k, v in src.bindings.items()}))
+                continue
             b = _gen_bindings(rng, NAMES, local_sets, depth, False)
             if rng.random() < 0.4:
                 counter[0] += 1
